@@ -20,6 +20,7 @@ File format:
     tags: large
 """
 
+import ast
 import re
 from dataclasses import dataclass, field
 from pathlib import Path
@@ -95,29 +96,41 @@ def calculate_specificity(rule: MerchantRule) -> Tuple[int, int, int, int]:
         contains("UBER") and contains("EATS")     -> (50, 2, 0, 8)
         contains("UBER") and amount > 50          -> (50, 1, 1, 4)
     """
-    expr = rule.match_expr.lower()
+    # The counts are taken from the parsed expression, not from its text: a keyword inside a
+    # string literal (contains("MONTHLY"), "HOLIDAY INN") is not a constraint, a call written
+    # `contains ("X")` is still a pattern condition, and an apostrophe inside a pattern
+    # ("MCDONALD'S") does not delimit anything
+    try:
+        tree = expr_parser.parse_expression(rule.match_expr)
+    except expr_parser.ExpressionError:
+        return (rule.priority, 0, 0, 0)
 
-    # Count pattern conditions (each pattern function adds specificity)
-    pattern_funcs = ['contains(', 'regex(', 'normalized(', 'startswith(', 'fuzzy(', 'anyof(']
-    pattern_count = sum(expr.count(f) for f in pattern_funcs)
+    pattern_count = 0
+    pattern_length = 0
+    constraint_kinds = set()
+    for node in ast.walk(tree):
+        if (isinstance(node, ast.Call) and isinstance(node.func, ast.Name)
+                and node.func.id.lower() in _PATTERN_FUNCS):
+            # Each pattern function adds specificity; its string arguments are the pattern text
+            pattern_count += 1
+            for arg in node.args:
+                if isinstance(arg, ast.Constant) and isinstance(arg.value, str):
+                    pattern_length += len(arg.value)
+        elif isinstance(node, ast.Name) and node.id.lower() in _CONSTRAINT_NAMES:
+            # amount, date, month, ... used as a value
+            constraint_kinds.add(node.id.lower())
+        elif isinstance(node, ast.Attribute) and isinstance(node.value, ast.Name):
+            base = node.value.id.lower()
+            if base == 'field':
+                constraint_kinds.add('field')
+            elif base == 'txn' and node.attr.lower() in _CONSTRAINT_NAMES:
+                constraint_kinds.add(node.attr.lower())
 
-    # Count field constraints (amount, date, month, etc.)
-    field_keywords = ['amount', 'date', 'month', 'year', 'day', 'weekday', 'source', 'field.']
-    field_count = sum(1 for kw in field_keywords if kw in expr)
-
-    # Extract pattern text length (rough measure of specificity)
-    pattern_length = _extract_pattern_length(rule.match_expr)
-
-    return (rule.priority, pattern_count, field_count, pattern_length)
+    return (rule.priority, pattern_count, len(constraint_kinds), pattern_length)
 
 
-def _extract_pattern_length(match_expr: str) -> int:
-    """Extract total length of pattern strings in a match expression."""
-    import re
-    # Find all quoted strings in the expression
-    strings = re.findall(r'"([^"]*)"', match_expr)
-    strings += re.findall(r"'([^']*)'", match_expr)
-    return sum(len(s) for s in strings)
+_PATTERN_FUNCS = frozenset(['contains', 'regex', 'normalized', 'startswith', 'fuzzy', 'anyof'])
+_CONSTRAINT_NAMES = frozenset(['amount', 'date', 'month', 'year', 'day', 'weekday', 'source'])
 
 
 class MerchantParseError(Exception):
